@@ -210,6 +210,11 @@ func runC05Bcast(cfgTok, evTok string) (out string) {
 			return &c05Hook{}
 		})
 	}
+	if kv["ak"] != 0 {
+		oldFlag := remux.RtspRemuxerAddSpsPps2KeyFrameFlag
+		remux.RtspRemuxerAddSpsPps2KeyFrameFlag = true
+		defer func() { remux.RtspRemuxerAddSpsPps2KeyFrameFlag = oldFlag }()
+	}
 	group := logic.NewGroup("live", "c05", &cfg, opt, nopGroupObserver{})
 	pubConn := newFakeConn(nil)
 	pubSession := rtmp.NewServerSession(nopRtmpObserver{}, pubConn)
